@@ -209,7 +209,7 @@ var inlineFrags = []string{
 	"&copy;", "\t tab", "<DIV>", "<Script>x</Script>", "<TITLE>t</TITLE>", "<TextArea>", "</XMP>", "<IFRAME src=x>", "<Style>", "<NoEmbed>", "<A HREF=\"x\">", "<PlainText>", "**", "_", "[", "]", "![", "<", ">", "1. x", "- y", "# z", "> q", "```", "~~~", "---", "===",
 }
 
-var refLabels = []string{"foo", "Foo Bar", "bar", "ẞ", "a b", "x"}
+var refLabels = []string{"foo", "Foo Bar", "bar", "\u1e9e", "a b", "x", "\u00dcn\u00efc\u00f6d\u00e9", "\u0391\u0393\u03a9", "stra\u00dfe", "\u0130stanbul"}
 
 func inlineText(r *Rng) string {
 	n := r.Range(1, 4)
